@@ -249,8 +249,9 @@ def run(tier, seed):
     for (on_, f), ob in sorted(outl.items()):
         if f != "opml": continue
         xo = docs.STD | E["PARSE_OPML"]; sid = "o_%s_%s" % (on_, f)
-        iseg += [conv_line("s_conv", sid, ("html", xo, "en")), line("e_new", 0, sid, xo, 0), line("e_conv", 0, docs.FMT["html"]), line("e_opml2text", 0), line("e_conv", 0, docs.FMT["html"]),
-                 line("e_opml2text", 0), line("e_conv", 0, docs.FMT["latex"]), line("e_free", 0), conv_line("s_conv", sid, ("latex", xo, "en"))]
+        iseg += [conv_line("s_conv", sid, ("html", xo, "en")), line("e_new", 0, sid, xo, 0), line("e_opml2text", 0), line("e_conv", 0, docs.FMT["html"]), line("e_free", 0),
+                 line("e_new", 0, sid, xo, 0), line("e_opml2text", 0), line("e_opml2text", 0), line("e_conv", 0, docs.FMT["latex"]), line("e_free", 0), conv_line("s_conv", sid, ("latex", xo, "en")),
+                 line("e_new", 0, sid, xo, 0), line("e_conv", 0, docs.FMT["html"]), line("e_opml2text", 0), line("e_conv", 0, docs.FMT["html"]), line("e_free", 0)]
     r1 = run_harness(exe, [iseg])[0]
     trace3 = [dict(e="reset")] + to_trace_events(r1["events"])
     if r1["status"] != "ok": problems.append(("crash", iseg, r1))
